@@ -58,6 +58,9 @@ type Prior struct {
 // C12Task is one concurrent parse.
 type C12Task struct {
 	Target string      `json:"target"`
+	// Entry: string | bytes | reader | file | procfd | samefile | seekreader, or
+	// hugereader:N / hugefile:N (the text preceded by N MiB of comment lines, so
+	// that it lies beyond any fixed limit a reading path may have).
 	Entry  string      `json:"entry"`
 	Reader *ReaderPlan `json:"reader,omitempty"`
 }
@@ -156,8 +159,33 @@ var (
 // parseVia parses text through the given entry point.
 func parseVia(name, text, entry string, plan *ReaderPlan, uniq string) *parseResult {
 	res := &parseResult{}
+	padMiB := 0
+	if i := strings.Index(entry, ":"); i > 0 {
+		fmt.Sscanf(entry[i+1:], "%d", &padMiB)
+		entry = entry[:i]
+	}
 	pan, msg := protect(func() {
 		switch entry {
+		case "hugereader", "hugefile":
+			// Megabytes of comment lines in front of the text: nothing the parser sees
+			// changes, but the text now lies beyond any fixed-size limit or buffer of
+			// the reading path.
+			line := "; " + strings.Repeat("padding ", 15) + "\n"
+			pad := strings.Repeat(line, (padMiB<<20)/len(line)+40)
+			if entry == "hugereader" {
+				res.m, res.err = asm.Parse(name, io.MultiReader(strings.NewReader(pad), strings.NewReader(text)))
+			} else {
+				p := filepath.Join(tmpDir, "huge-"+uniq+".ll")
+				f, err := os.Create(p)
+				if err != nil {
+					panic("harness: cannot write temp file: " + err.Error())
+				}
+				f.WriteString(pad)
+				f.WriteString(text)
+				f.Close()
+				res.m, res.err = asm.ParseFile(p)
+				os.Remove(p)
+			}
 		case "bytes":
 			buf := []byte(text)
 			res.m, res.err = asm.ParseBytes(name, buf)
@@ -534,7 +562,7 @@ func c12Run(sc *C12Scenario) *c12Outcome {
 		runtime.GC()
 	}
 	for _, t := range sc.Tasks {
-		if (t.Entry == "file" || t.Entry == "samefile" || t.Entry == "seekreader") && tmpDir == "" {
+		if (t.Entry == "file" || t.Entry == "samefile" || t.Entry == "seekreader" || strings.HasPrefix(t.Entry, "hugefile")) && tmpDir == "" {
 			d, err := os.MkdirTemp("", "c12-")
 			if err != nil {
 				out.class, out.sig, out.detail = "harness-error", "tempdir", err.Error()
@@ -883,6 +911,23 @@ func c12Search() {
 				if i < 64 {
 					sc.Tape.Gaps[i] = uint32(1 + (int(sc.Tape.Gaps[i]) % 40))
 				}
+			}
+		}
+		if !concurrent {
+			// A few runs read the text from behind megabytes of comment lines.
+			huge := ""
+			switch {
+			case idx == 2:
+				huge = "hugereader:64"
+			case idx == 5:
+				huge = "hugefile:64"
+			case *flagTier == "thorough" && idx >= 100 && idx < 116:
+				huge = fmt.Sprintf("%s:%d", []string{"hugereader", "hugefile"}[idx%2], []int{1, 2, 4, 8, 16, 32, 128, 256}[(idx-100)/2])
+			}
+			if huge != "" {
+				sc.Tasks[0].Entry, sc.Tasks[0].Reader = huge, nil
+				sc.Tasks[0].Target = "verif:order/globals.ll"
+				sc.Prior = nil
 			}
 		}
 		o := c12Run(sc)
